@@ -1,3 +1,4 @@
+import os
 """Rule engine plumbing: instances, context, evidence."""
 import json, os, time
 from program import Program, fn_key
